@@ -8,7 +8,11 @@
 (***************************************************************************)
 EXTENDS Integers, Sequences, TLC, Json, IOUtils
 
-Recs == ndJsonDeserialize(IOEnv.VERIF_OBS)
+\* With several workers TLC re-evaluates constant definitions on every use (the cache of evaluated
+\* constants is per tool instance).  TLCSet in an ASSUME is evaluated once per worker and TLCGet reads
+\* that worker's copy, so the file is parsed once per worker instead of once per record.
+ASSUME TLCSet(4, ndJsonDeserialize(IOEnv.VERIF_OBS))
+Recs == TLCGet(4)
 NRecs == Len(Recs)
 NChunks == 64
 
